@@ -18,6 +18,9 @@
   handed-over children, the recursion into namesakes and the update of the caller's list reference); the link
   invariants in pointer terms; release exactly once; a clone realises the relabelled source (same shape, names
   and values at every depth); the walk the drivers print is the abstraction.
+  `history_wf`: for any history of new/after/before/add/insert/unlink/move/clone/clear/destroy from the empty store
+  (`runOp`, the function the model driver executes) the model never fails and the store realises the specification
+  state.
   `abs_ops` states add/insert/clone/move through the spec state `Forest.St` (which also searches the operands in
   `tops`): proved (`Lemmas/NodesSt.lean` ties `sibsOf?`/`detached?`/`topOf?`/`find?` to the located form).
   gnode_swap.c (children of two nodes exchanged) and gnode_relink.c (parent/predecessor
@@ -25,7 +28,7 @@
   compared with the specification (`St.swap`, `St.relink`) by the correspondence run, incl. relink on wiped links;
   no theorem about them.
 -/
-import MptModel.Lemmas.NodesSt
+import MptModel.Lemmas.NodesHistory
 namespace Mpt.C14
 open Mpt Mpt.Nodes Mpt.Forest
 
@@ -531,6 +534,36 @@ example : ∃ s', exStore.move exStore.fuel .loc (some 2) 0 = .ok (s', 0) ∧ WF
   have hm : (merge ([Tree.node 2 (some "a") (some "v") []].drop 0) [.node 0 (some "a") none [.node 1 (some "b") none []]] 0).2.2 = 0 := by
     simp [merge, findName, namesakes, midx, Tree.name]
   exact ⟨s', by rw [h, hm], _, r⟩
+
+/-! ### histories -/
+
+/-- creating a node (`mpt_node_new` + name + value): a new detached root, everything else as before -/
+theorem created_wf {s : Store} {tops : List Forest} (hR : Realises s tops) (n : Name) (v : Val) :
+    Realises (s.alloc n v).1 (tops ++ [[.node s.nodes.length n v []]]) :=
+  alloc_refines hR n v
+
+example : WF (({} : Store).alloc (some "a") none).1 := ⟨_, created_wf realises_empty (some "a") none⟩
+
+/-- one operation of a history (`runOp`: new, after, before, add, insert, unlink, move, clone, clear, destroy; the call is
+    skipped when the specification says its precondition does not hold, the model executes the C function otherwise):
+    the model does not fail and the new store realises the new specification state -/
+theorem step_wf {s : NSt} (hR : Realises s.m s.sp.tops) (op : NOp) :
+    ∃ s', runOp s op = .ok s' ∧ Realises s'.m s'.sp.tops :=
+  runOp_inv hR op
+
+/-- For ANY history of these operations from the empty store: no call of the model fails, and after every history the
+    store realises the specification state — hence it is well-formed (all link invariants of `wf_links` hold) and its
+    `free` log lists exactly the released records, each once (`released_log`).  `runOp` is what the model driver
+    executes for these operations; it takes the next handle from the store's record count. -/
+theorem history_wf (ops : List NOp) :
+    ∃ s, runOps {} ops = .ok s ∧ Realises s.m s.sp.tops ∧ WF s.m :=
+  let ⟨s, h1, h2⟩ := runOps_inv ops (s := {}) realises_empty
+  ⟨s, h1, h2, _, h2⟩
+
+example : ∃ s, runOps {} [.new (some "a") none, .new (some "b") none, .insert 0 0 1 false, .clone 0 1, .move 2 0,
+    .destroy 2, .unlink 1] = .ok s ∧ WF s.m :=
+  let ⟨s, h1, _, h3⟩ := history_wf _
+  ⟨s, h1, h3⟩
 
 /-! ### released_once -/
 
